@@ -19,8 +19,18 @@ fn text_of(c: &J, kind: &str, nc: i64) -> String {
     for it in c["items"].as_array().unwrap() {
         let (ch, st, en, v, m) = (it[0].as_i64().unwrap(), it[1].as_i64().unwrap(), it[2].as_i64().unwrap(), it[3].as_i64().unwrap(), it[4].as_i64().unwrap());
         if m == 1 {
-            // malformed line: a non-numeric end column
-            s.push_str(&format!("{}\t{}\tx{}\t{}\n", name_of(ch, nc), st, en, v));
+            // malformed line, in one of several shapes (chosen per case)
+            let n = name_of(ch, nc);
+            let line = match c["mshape"].as_i64().unwrap_or(0) {
+                1 => format!("{}\t\t{}\t{}\n", n, en, v),          // empty start column
+                2 => format!("{}\t{}\t\t{}\n", n, st, v),          // empty end column
+                3 => format!("{}\t{}\n", n, st),                    // columns missing
+                4 => format!("{}\t-{}\t{}\t{}\n", n, st + 1, en, v), // negative start
+                5 => format!("{}\t{}x\t{}\t{}\n", n, st, en, v),    // digits followed by junk
+                6 => format!("{}\t{}.0\t{}\t{}\n", n, st, en, v),   // a float where an integer belongs
+                _ => format!("{}\t{}\tx{}\t{}\n", n, st, en, v),    // non-numeric end column
+            };
+            s.push_str(&line);
         } else if kind == "bw" {
             s.push_str(&format!("{}\t{}\t{}\t{}\n", name_of(ch, nc), st, en, v));
         } else {
